@@ -46,6 +46,8 @@ type depQuery struct {
 	exploreAll bool
 	// intra: do not look into callees (calls depend on their arguments only)
 	intra bool
+	// bind: parameters of a helper analysed in the context of one call site
+	bind map[*ssa.Parameter]ssa.Value
 }
 
 func newDepQuery(p *Program, target func(v ssa.Value) bool) *depQuery {
@@ -362,6 +364,9 @@ func (q *depQuery) compute(v ssa.Value, path []int, depth int) bool {
 	case *ssa.Const, *ssa.Global, *ssa.Function, *ssa.Builtin:
 		return false
 	case *ssa.Parameter:
+		if a, ok := q.bind[x]; ok && depth < 35 {
+			return q.dep(a, path, depth+1)
+		}
 		if q.noParams {
 			// a helper with exactly one static call site is transparent: its parameter is the argument there
 			if arg := uniqueCallArgument(x); arg != nil && depth < 30 {
